@@ -80,11 +80,22 @@ DESC = {
 "C15f": "resolve_remote dispatches with try handlers[scheme](uri) except KeyError (a KeyError inside a handler falls through to urlopen)", "C16f": "TypeChecker lookup memo shared with checkers derived by purely additive redefine",
 "C17f": "ErrorTree records a node's instance only while unset (first error wins instead of last)", "C18f": "module-level lru_cache of pointer tokens, unescaped in place on the shared list",
 "C19f": "_Outputter.validation_error skips a message identical to the previous one", "C20f": "validator_for falls back to `default` instead of the latest draft for an unknown $schema",
+"C01g": "find_additional_properties joins all patternProperties regexes into one alternation (back-references renumbered)", "C02g": "URIDict.normalize case-folds the whole URI (documents whose URLs differ in path case collide)",
+"C03g": "draft-6/7 integer check via float(instance).is_integer() (OverflowError for ints beyond the float range)", "C04g": "best_match takes min over the flattened context tree (may raise an intermediate anyOf/oneOf node)",
+"C05g": "properties() looks members up with try instance[property] except KeyError (a defaultdict instance gets the member inserted)", "C06g": "schema-form dependencies descend with path=property (instance paths gain a spurious step)",
+"C07g": "resolve_remote writes the store in a finally with result=None (a failed retrieval is cached as None)", "C08g": "equal() returns False early when one != two (OrderedDicts compare order-sensitively)",
+"C09g": "maximum_draft3_draft4 reads exclusiveMaximum from validator.schema (the root) instead of its own schema object", "C10g": "best_match prefers the failing branch whose schema object has more members (annotations and unknown keywords count)",
+"C11g": "draft-3 dependencies returns at the first absent property (metaschema's later dependency entries never checked)", "C12g": "check_schema builds its metaschema validator with format_checker=FormatChecker()",
+"C13g": "is_ipv6 tests the zone text instead of the presence of '%' (a trailing bare % accepted)", "C14g": "ref() resolves and pushes inside the try whose finally pops (a clean pointer failure under-flows the stack for later pointers)",
+"C15g": "RefResolver seeds the store with the bundled metaschemas only when cache_remote is on", "C16g": "Validator.resolver becomes a lazy property (registry snapshot taken at first use, not at construction)",
+"C17g": "ErrorTree files an error under its keyword only if error.validator is not None (false-schema errors dropped)", "C18g": "Decimal branch of multipleOf yields inside decimal.localcontext() with narrowed precision (suspended iterator leaves the thread's context changed)",
+"C19g": "CLI checks the schema only when no --validator was given", "C20g": "CLI loads files with parse_float=Decimal (draft-6/7 integer-valued floats rejected)",
 }
 MISSED = set("C03 C07 C12 C15 C16 C20 C02b C06b C07b C10b C11b C14b C19b C01c C02c C06c C10c C12c C15c C16c C18c C19c C20c "
              "C02d C04d C05d C07d C09d C13d C15d C16d C18d C19d C20d "
              "C01e C02e C04e C05e C07e C10e C11e C12e C14e C15e C16e C19e C20e "
-             "C02f C03f C04f C07f C11f C12f C17f C18f".split())
+             "C02f C03f C04f C07f C11f C12f C17f C18f "
+             "C01g C02g C05g C08g C09g C10g C12g C14g C16g C18g".split())
 rows = []
 for name in sorted(os.listdir(os.path.join(HERE, "seeded"))):
     mp = os.path.join(HERE, "seeded", name, "meta.json")
